@@ -61,7 +61,8 @@ theorem register_spec {c c' : Cat} (wf : WF c) {r : RegReq}
     (hsid : ∀ sd, r.svc = some sd → sd.sid ≠ "")
     (hco : ∀ k ∈ r.chks, ∀ k' ∈ r.chks, k.node = k'.node → k.cid = k'.cid → k = k')
     (hnm : ∀ k ∈ r.chks, k.sid ≠ "" →
-      (∀ s ∈ c.svcs, s.peer = r.peer → s.node = k.node → s.sid = k.sid → s.name = k.sname) ∧
+      ((∀ s ∈ c.svcs, s.peer = r.peer → s.node = k.node → s.sid = k.sid → s.name = k.sname) ∨
+       (∃ sd, r.svc = some sd ∧ r.node.name = k.node ∧ sd.sid = k.sid)) ∧
       (∀ sd, r.svc = some sd → r.node.name = k.node → sd.sid = k.sid → sd.name = k.sname))
     (h : register c r = .ok c') :
     WF c' ∧
@@ -101,9 +102,11 @@ theorem register_spec {c c' : Cat} (wf : WF c) {r : RegReq}
       obtain ⟨wf2, n2, k2, s2⟩ := step2
       have hnm2 : ∀ k ∈ r.chks, k.sid ≠ "" → ∀ s ∈ c2.svcs, s.peer = r.peer → s.node = k.node → s.sid = k.sid → s.name = k.sname := by
         intro k hk hs s hs2 e1 e2 e3
-        rcases (s2 s).mp hs2 with ⟨sd, hsd, rfl⟩ | ⟨h3, _⟩
+        rcases (s2 s).mp hs2 with ⟨sd, hsd, rfl⟩ | ⟨h3, h4⟩
         · exact (hnm k hk hs).2 sd hsd e2 e3
-        · rw [s1] at h3; exact (hnm k hk hs).1 s h3 e1 e2 e3
+        · rcases (hnm k hk hs).1 with h5 | ⟨sd, hsd, e4, e5⟩
+          · rw [s1] at h3; exact h5 s h3 e1 e2 e3
+          · exact absurd ⟨e1, by rw [e2, e4], by rw [e3, e5]⟩ (h4 sd hsd)
       obtain ⟨n3, s3, wf3, k3⟩ := regChks_spec r.chks wf2 hco hnm2 h
       refine ⟨wf3, fun x => ?_, fun x => ?_, fun x => ?_⟩
       · rw [n3, n2, n1]; rfl
@@ -122,12 +125,189 @@ structure RegsOK (c : Cat) (p : String) (ops : List Op) : Prop where
     r.node.name = r'.node.name → sd.sid = sd'.sid → sd = sd'
   sid : ∀ r sd, .reg r ∈ ops → r.svc = some sd → sd.sid ≠ ""
   cchk : ∀ r r', .reg r ∈ ops → .reg r' ∈ ops → ∀ k ∈ r.chks, ∀ k' ∈ r'.chks, k.node = k'.node → k.cid = k'.cid → k = k'
-  nmc : ∀ r, .reg r ∈ ops → ∀ k ∈ r.chks, k.sid ≠ "" →
-    ∀ s ∈ c.svcs, s.peer = p → s.node = k.node → s.sid = k.sid → s.name = k.sname
   nmo : ∀ r r' sd, .reg r ∈ ops → .reg r' ∈ ops → ∀ k ∈ r.chks, k.sid ≠ "" → r'.svc = some sd →
     r'.node.name = k.node → sd.sid = k.sid → sd.name = k.sname
 
+/-! ### what is known about the service rows a check registration will look up -/
+
+/-- `K n i nm`: the catalog has a service row of peer `p` at (node `n`, id `i`) and every such row has name `nm` -/
+def KL (c : Cat) (p : String) (K : String → String → String → Prop) : Prop :=
+  ∀ n i nm, K n i nm → (∃ s ∈ c.svcs, s.peer = p ∧ s.node = n ∧ s.sid = i) ∧
+    ∀ s ∈ c.svcs, s.peer = p → s.node = n → s.sid = i → s.name = nm
+
+/-- the registrations do not contradict what `K` knows -/
+def KCo (K : String → String → String → Prop) (ops : List Op) : Prop :=
+  ∀ r sd n i nm, Op.reg r ∈ ops → K n i nm → r.svc = some sd → r.node.name = n → sd.sid = i → sd.name = nm
+
+/-- after a registration its own service row is known too -/
+def addK (K : String → String → String → Prop) (r : RegReq) : String → String → String → Prop :=
+  fun n i nm => K n i nm ∨ ∃ sd, r.svc = some sd ∧ r.node.name = n ∧ sd.sid = i ∧ sd.name = nm
+
+/-- along the command list every service check finds its service row: it is known already (`K`), or it is registered
+    by the same request or by an earlier one -/
+def Pres : (String → String → String → Prop) → List Op → Prop
+  | _, [] => True
+  | K, .reg r :: os =>
+    (∀ k ∈ r.chks, k.sid ≠ "" → K k.node k.sid k.sname ∨ ∃ sd, r.svc = some sd ∧ r.node.name = k.node ∧ sd.sid = k.sid) ∧
+    Pres (addK K r) os
+  | K, _ :: os => Pres K os
+
+theorem Pres.mono {K K' : String → String → String → Prop} (h : ∀ n i nm, K n i nm → K' n i nm) (ops : List Op) :
+    Pres K ops → Pres K' ops := by
+  induction ops generalizing K K' with
+  | nil => exact fun _ => trivial
+  | cons o os ih =>
+    cases o with
+    | reg r =>
+      simp only [Pres]
+      rintro ⟨a, b⟩
+      refine ⟨fun k hk hne => ?_, ih (fun n i nm hni => ?_) b⟩
+      · rcases a k hk hne with h1 | h1
+        · exact Or.inl (h _ _ _ h1)
+        · exact Or.inr h1
+      · rcases hni with h1 | h1
+        · exact Or.inl (h _ _ _ h1)
+        · exact Or.inr h1
+    | deregSvc p n i => simp only [Pres]; exact ih h
+    | deregChk p n k => simp only [Pres]; exact ih h
+    | deregNode p n => simp only [Pres]; exact ih h
+
+/-- the (node, id, name) triples a command list registers -/
+def addsKey (ops : List Op) (n i nm : String) : Prop :=
+  ∃ r sd, Op.reg r ∈ ops ∧ r.svc = some sd ∧ r.node.name = n ∧ sd.sid = i ∧ sd.name = nm
+
+theorem Pres.append {K : String → String → String → Prop} (a b : List Op) :
+    Pres K (a ++ b) ↔ Pres K a ∧ Pres (fun n i nm => K n i nm ∨ addsKey a n i nm) b := by
+  induction a generalizing K with
+  | nil =>
+    simp only [List.nil_append, Pres, true_and]
+    constructor
+    · exact Pres.mono (fun n i nm h => Or.inl h) b
+    · apply Pres.mono
+      rintro n i nm (h | ⟨r, _, hr, _⟩)
+      · exact h
+      · cases hr
+  | cons o os ih =>
+    have drop : ∀ (o : Op), (∀ r, o ≠ .reg r) →
+        ((Pres K os ∧ Pres (fun n i nm => K n i nm ∨ addsKey os n i nm) b) ↔
+         (Pres K os ∧ Pres (fun n i nm => K n i nm ∨ addsKey (o :: os) n i nm) b)) := by
+      intro o ho
+      constructor
+      · rintro ⟨h1, h2⟩
+        refine ⟨h1, Pres.mono ?_ b h2⟩
+        rintro n i nm (h | ⟨r', sd, hr', e⟩)
+        · exact Or.inl h
+        · exact Or.inr ⟨r', sd, by simp [hr'], e⟩
+      · rintro ⟨h1, h2⟩
+        refine ⟨h1, Pres.mono ?_ b h2⟩
+        rintro n i nm (h | ⟨r', sd, hr', e⟩)
+        · exact Or.inl h
+        · simp only [List.mem_cons] at hr'
+          rcases hr' with hr' | hr'
+          · exact absurd hr'.symm (ho r')
+          · exact Or.inr ⟨r', sd, hr', e⟩
+    cases o with
+    | reg r =>
+      simp only [List.cons_append, Pres, ih, and_assoc]
+      constructor
+      · rintro ⟨h1, h2, h3⟩
+        refine ⟨h1, h2, Pres.mono ?_ b h3⟩
+        rintro n i nm ((h | ⟨sd, e1, e2, e3, e4⟩) | ⟨r', sd, hr', e⟩)
+        · exact Or.inl h
+        · exact Or.inr ⟨r, sd, by simp, e1, e2, e3, e4⟩
+        · exact Or.inr ⟨r', sd, by simp [hr'], e⟩
+      · rintro ⟨h1, h2, h3⟩
+        refine ⟨h1, h2, Pres.mono ?_ b h3⟩
+        rintro n i nm (h | ⟨r', sd, hr', e1, e2, e3, e4⟩)
+        · exact Or.inl (Or.inl h)
+        · simp only [List.mem_cons, Op.reg.injEq] at hr'
+          rcases hr' with rfl | hr'
+          · exact Or.inl (Or.inr ⟨sd, e1, e2, e3, e4⟩)
+          · exact Or.inr ⟨r', sd, hr', e1, e2, e3, e4⟩
+    | deregSvc p n i => simp only [List.cons_append, Pres, ih]; exact drop _ (by intro r h; cases h)
+    | deregChk p n k => simp only [List.cons_append, Pres, ih]; exact drop _ (by intro r h; cases h)
+    | deregNode p n => simp only [List.cons_append, Pres, ih]; exact drop _ (by intro r h; cases h)
+
+theorem Pres.nochk {K : String → String → String → Prop} (ops : List Op) (h : ∀ r, Op.reg r ∈ ops → r.chks = []) : Pres K ops := by
+  induction ops generalizing K with
+  | nil => trivial
+  | cons o os ih =>
+    cases o with
+    | reg r =>
+      simp only [Pres]
+      refine ⟨?_, ih (fun r' hr' => h r' (by simp [hr']))⟩
+      rw [h r (by simp)]; simp
+    | deregSvc p n i => simp only [Pres]; exact ih (fun r' hr' => h r' (by simp [hr']))
+    | deregChk p n k => simp only [Pres]; exact ih (fun r' hr' => h r' (by simp [hr']))
+    | deregNode p n => simp only [Pres]; exact ih (fun r' hr' => h r' (by simp [hr']))
+
+/-- one step of a coherent registration list: the effect of the head and everything the tail needs again -/
+theorem regs_tail {c c1 : Cat} {p : String} {r : RegReq} {os : List Op} {K : String → String → String → Prop}
+    (wf : WF c) (ok : RegsOK c p (.reg r :: os)) (kl : KL c p K) (kco : KCo K (.reg r :: os))
+    (hhead : ∀ k ∈ r.chks, k.sid ≠ "" → K k.node k.sid k.sname ∨ ∃ sd, r.svc = some sd ∧ r.node.name = k.node ∧ sd.sid = k.sid)
+    (h1 : register c r = .ok c1) :
+    WF c1 ∧
+    (∀ x, x ∈ c1.nodes ↔ x = nodeRow p r.node ∨ (x ∈ c.nodes ∧ ¬(x.peer = p ∧ x.name = r.node.name))) ∧
+    (∀ x, x ∈ c1.svcs ↔ (∃ sd, r.svc = some sd ∧ x = svcRow p r.node.name sd) ∨
+      (x ∈ c.svcs ∧ ∀ sd, r.svc = some sd → ¬(x.peer = p ∧ x.node = r.node.name ∧ x.sid = sd.sid))) ∧
+    (∀ x, x ∈ c1.chks ↔ (∃ k ∈ r.chks, x = chkRow p k) ∨
+      (x ∈ c.chks ∧ ∀ k ∈ r.chks, ¬(x.peer = p ∧ x.node = k.node ∧ x.cid = k.cid))) ∧
+    RegsOK c1 p os ∧ KL c1 p (addK K r) ∧ KCo (addK K r) os := by
+  obtain ⟨r0, e0, hp⟩ := ok.regs (.reg r) (by simp)
+  cases e0
+  have hr : Op.reg r ∈ Op.reg r :: os := by simp
+  have mem : ∀ r', Op.reg r' ∈ os → Op.reg r' ∈ Op.reg r :: os := fun r' h' => by simp [h']
+  obtain ⟨wf1, n1, s1, k1⟩ := register_spec wf (r := r)
+    (by rw [hp]; exact ok.hid r hr)
+    (fun sd hsd => ok.sid r sd hr hsd)
+    (ok.cchk r r hr hr)
+    (fun k hk hs => ⟨by
+        rcases hhead k hk hs with hK | hsv
+        · left; rw [hp]; exact (kl _ _ _ hK).2
+        · exact Or.inr hsv, fun sd hsd => ok.nmo r r sd hr hr k hk hs hsd⟩)
+    h1
+  rw [hp] at n1 s1 k1
+  refine ⟨wf1, n1, s1, k1, ?_, ?_, ?_⟩
+  · refine ⟨fun o ho => ok.regs o (by simp [ho]), ?_, ?_, ?_, ?_, ?_, ?_, ?_⟩
+    · intro r' hr' hne e he hep hei
+      rcases (n1 e).mp he with rfl | ⟨he1, _⟩
+      · simp only [nodeRow] at hei ⊢
+        exact ok.cid r r' hr (mem r' hr') hei (by rw [hei]; exact hne)
+      · exact ok.hid r' (mem r' hr') hne e he1 hep hei
+    · exact fun a b ha hb => ok.cid a b (mem a ha) (mem b hb)
+    · exact fun a b ha hb => ok.cnode a b (mem a ha) (mem b hb)
+    · exact fun a b sd sd' ha hb => ok.csvc a b sd sd' (mem a ha) (mem b hb)
+    · exact fun a sd ha => ok.sid a sd (mem a ha)
+    · exact fun a b ha hb => ok.cchk a b (mem a ha) (mem b hb)
+    · exact fun a b sd ha hb => ok.nmo a b sd (mem a ha) (mem b hb)
+  · intro n i nm hK
+    rcases hK with hK | ⟨sd, hsd, e1, e2, e3⟩
+    · obtain ⟨⟨s, hs, a1, a2, a3⟩, hall⟩ := kl n i nm hK
+      constructor
+      · by_cases hkey : ∃ sd, r.svc = some sd ∧ r.node.name = n ∧ sd.sid = i
+        · obtain ⟨sd, hsd, e1, e2⟩ := hkey
+          exact ⟨_, (s1 _).mpr (Or.inl ⟨sd, hsd, rfl⟩), rfl, e1, e2⟩
+        · refine ⟨s, (s1 s).mpr (Or.inr ⟨hs, fun sd hsd hk => hkey ⟨sd, hsd, ?_, ?_⟩⟩), a1, a2, a3⟩
+          · rw [← hk.2.1, a2]
+          · rw [← hk.2.2, a3]
+      · intro s' hs' b1 b2 b3
+        rcases (s1 s').mp hs' with ⟨sd, hsd, rfl⟩ | ⟨h3, _⟩
+        · simp only [svcRow] at b2 b3 ⊢
+          exact kco r sd n i nm hr hK hsd b2 b3
+        · exact hall s' h3 b1 b2 b3
+    · constructor
+      · exact ⟨_, (s1 _).mpr (Or.inl ⟨sd, hsd, rfl⟩), rfl, e1, e2⟩
+      · intro s' hs' b1 b2 b3
+        rcases (s1 s').mp hs' with ⟨sd', hsd', rfl⟩ | ⟨_, h4⟩
+        · rw [hsd] at hsd'; cases hsd'; simp only [svcRow]; exact e3
+        · exact absurd ⟨b1, by rw [b2, e1], by rw [b3, e2]⟩ (h4 sd hsd)
+  · intro r' sd' n i nm hr' hK hsd' e1 e2
+    rcases hK with hK | ⟨sd, hsd, a1, a2, a3⟩
+    · exact kco r' sd' n i nm (mem r' hr') hK hsd' e1 e2
+    · rw [← a3, ok.csvc r r' sd sd' hr (mem r' hr') hsd hsd' (by rw [a1, e1]) (by rw [a2, e2])]
+
 theorem runRegs_spec (ops : List Op) (c : Cat) (p : String) (wf : WF c) (ok : RegsOK c p ops)
+    (K : String → String → String → Prop) (kl : KL c p K) (kco : KCo K ops) (hpres : Pres K ops)
     (h : (runOps c ops).2.1 = none) :
     WF (runOps c ops).1 ∧
     (∀ x, x ∈ (runOps c ops).1.nodes ↔ (∃ r, .reg r ∈ ops ∧ x = nodeRow p r.node) ∨
@@ -136,7 +316,7 @@ theorem runRegs_spec (ops : List Op) (c : Cat) (p : String) (wf : WF c) (ok : Re
       (x ∈ c.svcs ∧ ∀ r sd, .reg r ∈ ops → r.svc = some sd → ¬(x.peer = p ∧ x.node = r.node.name ∧ x.sid = sd.sid))) ∧
     (∀ x, x ∈ (runOps c ops).1.chks ↔ (∃ r, .reg r ∈ ops ∧ ∃ k ∈ r.chks, x = chkRow p k) ∨
       (x ∈ c.chks ∧ ∀ r, .reg r ∈ ops → ∀ k ∈ r.chks, ¬(x.peer = p ∧ x.node = k.node ∧ x.cid = k.cid))) := by
-  induction ops generalizing c with
+  induction ops generalizing c K with
   | nil => simp [runOps, wf]
   | cons o os ih =>
     obtain ⟨r, rfl, hp⟩ := ok.regs o (by simp)
@@ -149,32 +329,9 @@ theorem runRegs_spec (ops : List Op) (c : Cat) (p : String) (wf : WF c) (ok : Re
       simp only at h
       have hr : Op.reg r ∈ Op.reg r :: os := by simp
       have mem : ∀ r', Op.reg r' ∈ os → Op.reg r' ∈ Op.reg r :: os := fun r' h' => by simp [h']
-      obtain ⟨wf1, n1, s1, k1⟩ := register_spec wf (r := r)
-        (by rw [hp]; exact ok.hid r hr)
-        (fun sd hsd => ok.sid r sd hr hsd)
-        (ok.cchk r r hr hr)
-        (fun k hk hs => ⟨by rw [hp]; exact ok.nmc r hr k hk hs, fun sd hsd => ok.nmo r r sd hr hr k hk hs hsd⟩)
-        h1
-      rw [hp] at n1 s1 k1
-      have ok1 : RegsOK c1 p os := by
-        refine ⟨fun o ho => ok.regs o (by simp [ho]), ?_, ?_, ?_, ?_, ?_, ?_, ?_, ?_⟩
-        · intro r' hr' hne e he hep hei
-          rcases (n1 e).mp he with rfl | ⟨he1, _⟩
-          · simp only [nodeRow] at hei ⊢
-            exact ok.cid r r' hr (mem r' hr') hei (by rw [hei]; exact hne)
-          · exact ok.hid r' (mem r' hr') hne e he1 hep hei
-        · exact fun a b ha hb => ok.cid a b (mem a ha) (mem b hb)
-        · exact fun a b ha hb => ok.cnode a b (mem a ha) (mem b hb)
-        · exact fun a b sd sd' ha hb => ok.csvc a b sd sd' (mem a ha) (mem b hb)
-        · exact fun a sd ha => ok.sid a sd (mem a ha)
-        · exact fun a b ha hb => ok.cchk a b (mem a ha) (mem b hb)
-        · intro r' hr' k hk hs s hs1 e1 e2 e3
-          rcases (s1 s).mp hs1 with ⟨sd, hsd, rfl⟩ | ⟨h3, _⟩
-          · simp only [svcRow] at e2 e3 ⊢
-            exact ok.nmo r' r sd (mem r' hr') hr k hk hs hsd e2 e3
-          · exact ok.nmc r' (mem r' hr') k hk hs s h3 e1 e2 e3
-        · exact fun a b sd ha hb => ok.nmo a b sd (mem a ha) (mem b hb)
-      obtain ⟨wf2, n2, s2, k2⟩ := ih c1 wf1 ok1 h
+      simp only [Pres] at hpres
+      obtain ⟨wf1, n1, s1, k1, ok1, kl1, kco1⟩ := regs_tail wf ok kl kco hpres.1 h1
+      obtain ⟨wf2, n2, s2, k2⟩ := ih c1 wf1 ok1 (addK K r) kl1 kco1 hpres.2 h
       refine ⟨wf2, fun x => ?_, fun x => ?_, fun x => ?_⟩
       · rw [n2, n1]
         simp only [List.mem_cons, Op.reg.injEq]
